@@ -327,9 +327,20 @@ def flagOn (name : String) : Bool :=
   let xs := extraConds.filter (fun x => x.1 == name)
   (!es.isEmpty || !xs.isEmpty) && es.all entryHolds && xs.all (fun x => hasCond x.2.1 x.2.2)
 
+/-- the clean-up a path of the session layer performs, from the regenerated facts: `sessionMap` is the
+buffer map and `sessionReq` the registration map in all three functions -/
+def cleanOf (path : String) : Clean :=
+  match Gen.PanicSites.cleanup.find? (fun p => p.1 == path) with
+  | none => ⟨false, false, false⟩
+  | some (_, ops) =>
+    let kinds := ops.map (·.1)
+    { delBuf := ops.any (fun o => o.1 == "delete" && o.2 == "sessionMap"),
+      delReq := ops.any (fun o => o.1 == "delete" && o.2 == "sessionReq"),
+      closeOnce := (kinds.filter (· == "close")).length == 1 && (kinds.dropWhile (· != "close")).all (· != "send") }
+
 /-- the guard configuration of the code as it is now -/
 def Cfg.current : Cfg :=
-  { xpubCastSelf := flagOn "xpubCastSelf", xpubCastPeer := flagOn "xpubCastPeer", xpubIdx := flagOn "xpubIdx", gdkgGuard := flagOn "gdkgGuard",
+  { peerClean := cleanOf "dkg.handlePeerMsg", reqClean := cleanOf "dkg.handleRequest", expClean := cleanOf "dkg.Loop", xpubCastSelf := flagOn "xpubCastSelf", xpubCastPeer := flagOn "xpubCastPeer", xpubIdx := flagOn "xpubIdx", gdkgGuard := flagOn "gdkgGuard",
     dealsDkgNil := flagOn "dealsDkgNil", dealsCast := flagOn "dealsCast", respsDkgNil := flagOn "respsDkgNil",
     respsCast := flagOn "respsCast", findPubDkg := flagOn "findPubDkg", respNil := flagOn "respNil",
     respVerOk := flagOn "respVerOk", pubKeyLen := flagOn "pubKeyLen", peerRespNil := flagOn "peerRespNil", encNil := flagOn "encNil",
@@ -340,6 +351,9 @@ def Cfg.current : Cfg :=
     sigIdxLen := flagOn "sigIdxLen", recoverDedup := flagOn "recoverDedup", anyNil := flagOn "anyNil",
     ridCast := flagOn "ridCast", ridLen := flagOn "ridLen", readSize := flagOn "readSize", mdNil := flagOn "mdNil", dispReplyNil := flagOn "dispReplyNil",
     listenName := flagOn "listenName", listenCast := flagOn "listenCast", lookupName := flagOn "lookupName" }
+
+/-- exactly three closing statement lists in the session layer: any other one is unaccounted for -/
+def cleanupPaths : List String := Gen.PanicSites.cleanup.map (·.1)
 
 /-- inventory differences, for diagnostics (driver op `inv`): new / vanished / re-guarded sites -/
 def invDiff : List String :=
